@@ -22,8 +22,14 @@ from .log import init_logging, set_nbdime_log_level
 
 class ConfigBackedParser(argparse.ArgumentParser):
 
+    # Entry point whose configuration applies when the program name is not
+    # the name of one (commands run as `nbdime <command>` or `python -m ...`)
+    default_entrypoint = None
+
     def parse_known_args(self, args=None, namespace=None):
         entrypoint = self.prog.split(' ')[0]
+        if entrypoint not in entrypoint_configurables and self.default_entrypoint:
+            entrypoint = self.default_entrypoint
         try:
             defs = get_defaults_for_argparse(entrypoint)
             ignore = defs.pop('Ignore', None)
